@@ -165,6 +165,237 @@ class Tr:
         self.err(e, f'unrecognised expression {ast.unparse(e)[:60]}')
 
 
+
+# ------------------------------------------------------------------------------------------------ normalisation
+# Before a method is matched it is rewritten into a canonical form, so that behaviour-preserving spellings are
+# recognised:  (1) calls of module-level helpers / methods of the same class whose body is a single `return E` are
+# replaced by E;  (2) locals that are assigned exactly once a pure string expression are replaced by that expression;
+# (3) variables bound by comprehensions are renamed _C0, _C1, ...   Everything else is left alone, and what cannot be
+# matched afterwards still fails closed.
+PURE_METHODS = {'replace', 'casefold', 'lower', 'upper', 'rstrip', 'lstrip', 'strip', 'split', 'rsplit', 'join',
+                'startswith', 'endswith', 'removeprefix', 'removesuffix', 'count'}
+PURE_FUNCS = {'os.path.join', 'os.path.normpath', 'posixpath.join', 'posixpath.normpath', 'len', 'str', 'tuple', 'list',
+              'sum', 'bool'}
+
+
+def _is_doc(st) -> bool:
+    return isinstance(st, ast.Expr) and isinstance(st.value, ast.Constant) and isinstance(st.value.value, str)
+
+
+def _body(fn) -> list:
+    return [st for st in fn.body if not _is_doc(st)]
+
+
+def _pure(e) -> bool:
+    """An expression without side effects whose value depends only on the variables it mentions."""
+    for n in ast.walk(e):
+        if isinstance(n, ast.Call):
+            f = n.func
+            if isinstance(f, ast.Attribute) and f.attr in PURE_METHODS:
+                continue
+            if _dotted(f) in PURE_FUNCS:
+                continue
+            return False
+        if isinstance(n, (ast.Await, ast.Yield, ast.YieldFrom, ast.NamedExpr, ast.Lambda, ast.Starred)):
+            return False
+    return True
+
+
+def _bound_in_comps(e) -> set:
+    return {n.id for c in ast.walk(e) if isinstance(c, ast.comprehension) for n in ast.walk(c.target) if isinstance(n, ast.Name)}
+
+
+class _Subst(ast.NodeTransformer):
+    def __init__(self, mp):
+        self.mp = mp
+
+    def visit_Name(self, node):
+        if isinstance(node.ctx, ast.Load) and node.id in self.mp:
+            import copy
+            return copy.deepcopy(self.mp[node.id])
+        return node
+
+
+def _helper_expr(fn: ast.FunctionDef):
+    """(parameter names, defaults, E) if the helper is `def f(p...): [doc]; return E`, else None."""
+    b = _body(fn)
+    if len(b) != 1 or not isinstance(b[0], ast.Return) or b[0].value is None:
+        return None
+    a = fn.args
+    if a.vararg or a.kwarg or a.posonlyargs:
+        return None
+    params = [x.arg for x in a.args]
+    deco = {_dotted(d) for d in fn.decorator_list}
+    if params and params[0] in ('self', 'cls') and 'staticmethod' not in deco:
+        params = params[1:]
+    defaults = dict(zip(params[len(params) - len(a.defaults):], a.defaults)) if a.defaults else {}
+    for k, d in zip(a.kwonlyargs, a.kw_defaults):
+        params.append(k.arg)
+        if d is not None:
+            defaults[k.arg] = d
+    return params, defaults, b[0].value
+
+
+class _Inline(ast.NodeTransformer):
+    """(1): replace calls of single-expression helpers by their bodies."""
+
+    def __init__(self, tr, cls, depth=0):
+        self.tr, self.cls, self.depth = tr, cls, depth
+
+    def _resolve(self, f):
+        if isinstance(f, ast.Name) and f.id in self.tr.funcs:
+            return self.tr.funcs[f.id]
+        if isinstance(f, ast.Attribute) and isinstance(f.value, ast.Name) and self.cls is not None \
+                and f.value.id in ('self', 'cls', self.cls.name):
+            for n in self.cls.body:
+                if isinstance(n, ast.FunctionDef) and n.name == f.attr:
+                    return n
+        return None
+
+    def visit_Call(self, node):
+        self.generic_visit(node)
+        fn = self._resolve(node.func)
+        if fn is None or self.depth > 3:
+            return node
+        h = _helper_expr(fn)
+        if h is None:
+            return node
+        params, defaults, e = h
+        if any(isinstance(a, ast.Starred) for a in node.args) or any(k.arg is None for k in node.keywords):
+            return node
+        if len(node.args) > len(params):
+            return node
+        mp = dict(zip(params, node.args))
+        for k in node.keywords:
+            if k.arg not in params or k.arg in mp:
+                return node
+            mp[k.arg] = k.value
+        for p_ in params:
+            if p_ not in mp:
+                if p_ not in defaults:
+                    return node
+                mp[p_] = defaults[p_]
+        # only pure arguments may be duplicated or dropped; no capture by the helper's comprehension variables
+        free = {n.id for a in mp.values() for n in ast.walk(a) if isinstance(n, ast.Name)}
+        if not all(_pure(a) for a in mp.values()) or (free & _bound_in_comps(e)):
+            return node
+        import copy
+        body = _Subst(mp).visit(copy.deepcopy(e))
+        return _Inline(self.tr, self.cls, self.depth + 1).visit(body)
+
+
+def _binding_counts(fn: ast.FunctionDef) -> dict:
+    cnt: dict[str, int] = {}
+    for a in fn.args.args + fn.args.kwonlyargs:
+        cnt[a.arg] = cnt.get(a.arg, 0) + 1
+    for n in ast.walk(fn):
+        if isinstance(n, ast.Name) and isinstance(n.ctx, (ast.Store, ast.Del)):
+            cnt[n.id] = cnt.get(n.id, 0) + 1
+        elif isinstance(n, ast.ExceptHandler) and n.name:
+            cnt[n.name] = cnt.get(n.name, 0) + 1
+    return cnt
+
+
+def _loads(node, name) -> int:
+    return sum(1 for n in ast.walk(node) if isinstance(n, ast.Name) and n.id == name and isinstance(n.ctx, ast.Load))
+
+
+def _inline_locals(fn: ast.FunctionDef) -> None:
+    """(2): `v = E` (v bound once, E pure over variables bound once, every use of v later in the same block) -> E."""
+    changed = True
+    while changed:
+        changed = False
+        cnt = _binding_counts(fn)
+        for holder in ast.walk(fn):
+            for fld in ('body', 'orelse', 'finalbody'):
+                blk = getattr(holder, fld, None)
+                if not isinstance(blk, list):
+                    continue
+                for i, st in enumerate(blk):
+                    tgt = val = None
+                    if isinstance(st, ast.Assign) and len(st.targets) == 1 and isinstance(st.targets[0], ast.Name):
+                        tgt, val = st.targets[0].id, st.value
+                    elif isinstance(st, ast.AnnAssign) and isinstance(st.target, ast.Name) and st.value is not None:
+                        tgt, val = st.target.id, st.value
+                    if tgt is None or cnt.get(tgt, 0) != 1 or not _pure(val):
+                        continue
+                    if isinstance(val, (ast.Dict, ast.List, ast.Set, ast.ListComp, ast.SetComp, ast.DictComp, ast.GeneratorExp)) \
+                            or (isinstance(val, ast.Call) and _dotted(val.func) in ('list', 'dict', 'set')):
+                        continue      # a fresh mutable object: its identity matters
+                    free = {n.id for n in ast.walk(val) if isinstance(n, ast.Name)} - _bound_in_comps(val)
+                    if any(cnt.get(v, 0) > 1 for v in free) or tgt in free:
+                        continue
+                    rest = blk[i + 1:]
+                    if sum(_loads(r, tgt) for r in rest) != _loads(fn, tgt) or not rest:
+                        continue
+                    if any(tgt in _bound_in_comps(r) or (free & _bound_in_comps(r)) for r in rest):
+                        continue
+                    sub = _Subst({tgt: val})
+                    blk[i + 1:] = [sub.visit(r) for r in rest]
+                    del blk[i]
+                    changed = True
+                    break
+                if changed:
+                    break
+            if changed:
+                break
+
+
+def _rename_comps(fn: ast.FunctionDef) -> None:
+    """(3): comprehension variables -> _C0, _C1, ... (per comprehension, in order of appearance)."""
+    k = 0
+    for n in ast.walk(fn):
+        if isinstance(n, (ast.ListComp, ast.SetComp, ast.GeneratorExp, ast.DictComp)):
+            names = []
+            for c in n.generators:
+                for t in ast.walk(c.target):
+                    if isinstance(t, ast.Name) and t.id not in names and not t.id.startswith('_C'):
+                        names.append(t.id)
+            mp = {}
+            for nm in names:
+                mp[nm] = f'_C{k}'
+                k += 1
+            for t in ast.walk(n):
+                if isinstance(t, ast.Name) and t.id in mp:
+                    t.id = mp[t.id]
+
+
+def normalise(tr, cls, fn: ast.FunctionDef) -> ast.FunctionDef:
+    import copy
+    out = copy.deepcopy(fn)
+    out.body = [_Inline(tr, cls).visit(st) for st in out.body]
+    _inline_locals(out)
+    _rename_comps(out)
+    ast.fix_missing_locations(out)
+    return out
+
+
+def _params(fn: ast.FunctionDef) -> list:
+    return [a.arg for a in fn.args.args if a.arg not in ('self', 'cls')]
+
+
+def _paths(stmts, conds=()):
+    """Flatten `if c: return A` / else / fall-through into [(conditions, returned expression)]; None for other shapes."""
+    out = []
+    for i, st in enumerate(stmts):
+        if _is_doc(st):
+            continue
+        if isinstance(st, ast.Return):
+            out.append((conds, st.value))
+            return out
+        if isinstance(st, ast.If):
+            a = _paths(st.body, conds + ((st.test, True),))
+            if a is None:
+                return None
+            rest = list(st.orelse) + list(stmts[i + 1:])
+            b = _paths(rest, conds + ((st.test, False),))
+            if b is None:
+                return None
+            return out + a + b
+        return None
+    return out
+
+
 def _flat(stmts):
     """All statements in order, descending into if/try/with/for bodies (both branches)."""
     for st in stmts:
@@ -362,22 +593,265 @@ def _coq_ops(ops) -> str:
     return '[' + '; '.join(ops) + ']'
 
 
+LOOKUP_METHODS = ('__getitem__', '__contains__', '__iter__', '_get_file', '_file_exists', 'open_bin', 'open_str',
+                  'walk_folder', 'walk_folder_repeat')
+
+
+def _methods(cls: ast.ClassDef) -> dict:
+    return {n.name: n for n in cls.body if isinstance(n, ast.FunctionDef)}
+
+
+def _join_of(tr: Tr, e, pfx: str):
+    """os.path.join(<pfx>, <Name X>) followed by .replace('\\', '/') / .casefold() -> (X, ops); None if e is not that."""
+    ops: list[str] = []
+    cur = e
+    chain = []
+    while isinstance(cur, ast.Call) and isinstance(cur.func, ast.Attribute) and _dotted(cur.func) not in ('os.path.join', 'posixpath.join'):
+        chain.append(cur)
+        cur = cur.func.value
+    if not (isinstance(cur, ast.Call) and _dotted(cur.func) in ('os.path.join', 'posixpath.join') and len(cur.args) == 2
+            and not cur.keywords and _name(cur.args[0]) == pfx and isinstance(cur.args[1], ast.Name)):
+        return None
+    for c in reversed(chain):
+        f = c.func
+        if f.attr == 'replace' and len(c.args) == 2 and not c.keywords and _is_const(c.args[0], '\\') and _is_const(c.args[1], '/'):
+            ops.append('OSlash')
+        elif f.attr == 'casefold' and not c.args and not c.keywords:
+            ops.append('OFold')
+        else:
+            tr.err(c, 'unrecognised operation after os.path.join')
+    return cur.args[1].id, ops
+
+
+def _systems_loop(tr: Tr, fn, stmts):
+    """The single `for S, P in self.systems` of a method -> (loop, S, P, forward)."""
+    loops = [s for s in stmts if isinstance(s, ast.For)]
+    if len(loops) != 1:
+        tr.err(fn, f'{fn.name}: expected one loop over self.systems')
+    lp = loops[0]
+    t = lp.target
+    if not (isinstance(t, ast.Tuple) and len(t.elts) == 2 and all(isinstance(x, ast.Name) for x in t.elts)) or lp.orelse:
+        tr.err(lp, f'{fn.name}: loop target is not a (system, prefix) pair')
+    if _dotted(lp.iter) == 'self.systems':
+        fwd = True
+    elif isinstance(lp.iter, ast.Call) and _name(lp.iter.func) == 'reversed' and len(lp.iter.args) == 1 \
+            and _dotted(lp.iter.args[0]) == 'self.systems':
+        fwd = False
+    else:
+        tr.err(lp, f'{fn.name}: does not iterate self.systems')
+    return lp, t.elts[0].id, t.elts[1].id, fwd
+
+
+def _is_fnf(h: ast.ExceptHandler) -> bool:
+    return _name(h.type) == 'FileNotFoundError'
+
+
+def _base_and_dunders(tr: Tr, side: dict) -> None:
+    """FileSystem.__getitem__/__contains__/__iter__/_file_exists and File.open_bin/open_str must be the plain delegations
+    the model assumes; no filesystem class may override the three dunder methods with anything else."""
+    base = tr.classes.get('FileSystem')
+    if base is None:
+        tr.err(tr.tree, 'FileSystem not found')
+
+    def delegation(cls, mname, target, args_ok):
+        fn = normalise(tr, cls, tr.method(cls, mname))
+        b = _body(fn)
+        ps = _params(fn)
+        ok = False
+        if len(b) == 1 and isinstance(b[0], (ast.Return, ast.Expr)):
+            v = b[0].value
+            if isinstance(v, ast.YieldFrom):
+                v = v.value
+            if isinstance(v, ast.Call) and _name(v.func) == 'iter' and len(v.args) == 1:
+                v = v.args[0]
+            if isinstance(v, ast.Call) and _dotted(v.func) == target and not v.keywords and args_ok(v.args, ps):
+                ok = True
+        if not ok:
+            tr.err(fn, f'{cls.name}.{mname} is not a plain delegation to {target}')
+
+    one = lambda a, ps: len(a) == 1 and len(ps) == 1 and _name(a[0]) == ps[0]
+    for cls in [base] + [tr.classes[c] for c in list(DICTS) + ['RawFileSystem', 'FileSystemChain'] if c in tr.classes]:
+        ms = _methods(cls)
+        if '__getitem__' in ms:
+            delegation(cls, '__getitem__', 'self._get_file', one)
+        if '__contains__' in ms:
+            delegation(cls, '__contains__', 'self._file_exists', one)
+        if '__iter__' in ms:
+            delegation(cls, '__iter__', 'self.walk_folder', lambda a, ps: len(a) == 1 and _is_const(a[0], '') and not ps)
+    for m in ('__getitem__', '__contains__', '__iter__', '_file_exists'):
+        if m not in _methods(base):
+            tr.err(base, f'FileSystem.{m} not found')
+    if _exists_via_get(tr, base, tr.method(base, '_file_exists')) is None:
+        tr.err(base, 'FileSystem._file_exists is not `try: self._get_file(name); return True except FileNotFoundError: return False`')
+    fcls = tr.classes.get('File')
+    if fcls is None:
+        tr.err(tr.tree, 'File not found')
+    delegation(fcls, 'open_bin', 'self.sys.open_bin', lambda a, ps: len(a) == 1 and _name(a[0]) == 'self' and not ps)
+    delegation(fcls, 'open_str', 'self.sys.open_str',
+               lambda a, ps: len(a) == 2 and _name(a[0]) == 'self' and len(ps) == 1 and _name(a[1]) == ps[0])
+    side['delegations'] = 'FileSystem.__getitem__/__contains__/__iter__ -> _get_file/_file_exists/walk_folder(\'\'); File.open_* -> sys.open_*(self)'
+
+
+def _exists_via_get(tr: Tr, cls, fn0):
+    """`try: self._get_file(name) [; return True] except FileNotFoundError: return False [else: return True]` -> True."""
+    fn = normalise(tr, cls, fn0)
+    b = _body(fn)
+    ps = _params(fn)
+    if len(ps) != 1:
+        return None
+    call = f'self._get_file({ps[0]})'
+    if len(b) in (1, 2) and isinstance(b[0], ast.Try) and len(b[0].handlers) == 1 and _is_fnf(b[0].handlers[0]) \
+            and not b[0].finalbody and ast.unparse(b[0].handlers[0].body[0]) == 'return False' and len(b[0].handlers[0].body) == 1:
+        t = b[0]
+        seq = [ast.unparse(x) for x in t.body] + [ast.unparse(x) for x in t.orelse] + [ast.unparse(x) for x in b[1:]]
+        if seq == [call, 'return True']:
+            return True
+    if len(b) == 1 and ast.unparse(b[0]) in (f'return self._get_file({ps[0]}) is not None',):
+        return None
+    return None
+
+
+def _chain_exists(tr: Tr, cls, side: dict) -> str:
+    """FileSystemChain._file_exists: inherited / try-_get_file -> ExViaGet; a loop over the members that asks each
+    member's own _file_exists for a joined name -> ExLoop carry cond ops.  Anything else fails closed."""
+    ms = _methods(cls)
+    if '_file_exists' not in ms:
+        side['chain_exists'] = {'mode': 'ExViaGet', 'shape': 'inherited FileSystem._file_exists (try self._get_file)'}
+        return 'ExViaGet'
+    if _exists_via_get(tr, cls, ms['_file_exists']):
+        side['chain_exists'] = {'mode': 'ExViaGet', 'shape': 'own try self._get_file'}
+        return 'ExViaGet'
+    fn = normalise(tr, cls, ms['_file_exists'])
+    ps = _params(fn)
+    if len(ps) != 1:
+        tr.err(fn, 'FileSystemChain._file_exists: expected one parameter')
+    A = ps[0]
+    b = _body(fn)
+    # return any(S._file_exists(join(P, A)...) for S, P in self.systems)
+    if len(b) == 1 and isinstance(b[0], ast.Return) and isinstance(b[0].value, ast.Call) and _name(b[0].value.func) == 'any' \
+            and len(b[0].value.args) == 1 and isinstance(b[0].value.args[0], ast.GeneratorExp):
+        g = b[0].value.args[0]
+        if len(g.generators) == 1 and not g.generators[0].ifs and _dotted(g.generators[0].iter) == 'self.systems' \
+                and isinstance(g.generators[0].target, ast.Tuple) and len(g.generators[0].target.elts) == 2:
+            S, P = (_name(x) for x in g.generators[0].target.elts)
+            e = g.elt
+            if isinstance(e, ast.Call) and _dotted(e.func) == f'{S}._file_exists' and len(e.args) == 1 and not e.keywords:
+                j = _join_of(tr, e.args[0], P)
+                if j is not None and j[0] == A:
+                    side['chain_exists'] = {'mode': f'ExLoop false false {_coq_ops(j[1])}', 'shape': 'any(member._file_exists(join(prefix, name)))'}
+                    return f'(ExLoop false false {_coq_ops(j[1])})'
+        tr.err(fn, 'FileSystemChain._file_exists: unrecognised any(...)')
+    lp, S, P, fwd = _systems_loop(tr, fn, b)
+    if not fwd or b[0] is not lp or len(b) != 2 or ast.unparse(b[1]) != 'return False':
+        tr.err(fn, 'FileSystemChain._file_exists: not `for member in self.systems: ...; return False`')
+    body = list(lp.body)
+    if not body:
+        tr.err(lp, 'empty loop')
+    last = body[-1]
+    if not (isinstance(last, ast.If) and not last.orelse and len(last.body) == 1 and ast.unparse(last.body[0]) == 'return True'
+            and isinstance(last.test, ast.Call) and _dotted(last.test.func) == f'{S}._file_exists' and len(last.test.args) == 1
+            and not last.test.keywords):
+        tr.err(lp, 'FileSystemChain._file_exists: loop does not end with `if member._file_exists(n): return True`')
+    asked = last.test.args[0]
+    pre = body[:-1]
+    carry = cond = False
+    if not pre:
+        j = _join_of(tr, asked, P)
+        if j is None:
+            tr.err(asked, 'FileSystemChain._file_exists: the name asked is not os.path.join(prefix, ...)')
+        X, ops = j
+        if X != A:
+            tr.err(asked, f'FileSystemChain._file_exists: joins {X}, not the parameter {A}')
+    elif len(pre) == 1 and isinstance(asked, ast.Name):
+        V = asked.id
+        st = pre[0]
+        asg = None
+        if isinstance(st, ast.Assign) and len(st.targets) == 1 and _name(st.targets[0]) == V:
+            asg = st
+        elif isinstance(st, ast.If) and _name(st.test) == P and len(st.body) == 1 and isinstance(st.body[0], ast.Assign) \
+                and len(st.body[0].targets) == 1 and _name(st.body[0].targets[0]) == V:
+            asg, cond = st.body[0], True
+            if st.orelse:
+                # else: V = A   (a fresh variable that is the bare name for an unrestricted member)
+                if not (len(st.orelse) == 1 and isinstance(st.orelse[0], ast.Assign) and _name(st.orelse[0].targets[0]) == V
+                        and _name(st.orelse[0].value) == A and V != A):
+                    tr.err(st, 'FileSystemChain._file_exists: unrecognised else branch')
+            elif V != A:
+                tr.err(st, f'FileSystemChain._file_exists: {V} keeps the value of an earlier member when the prefix is empty')
+        if asg is None:
+            tr.err(st, 'FileSystemChain._file_exists: unrecognised statement before the member test')
+        j = _join_of(tr, asg.value, P)
+        if j is None:
+            tr.err(asg, 'FileSystemChain._file_exists: the name asked is not os.path.join(prefix, ...)')
+        X, ops = j
+        if X == V:
+            carry = True           # the joined name is assigned to the variable it was joined from: it accumulates prefixes
+            if V != A:
+                tr.err(asg, f'FileSystemChain._file_exists: {V} is used before it is assigned')
+        elif X != A:
+            tr.err(asg, f'FileSystemChain._file_exists: joins {X}, not the parameter {A}')
+    else:
+        tr.err(lp, 'FileSystemChain._file_exists: unrecognised loop body')
+    mode = f'(ExLoop {"true" if carry else "false"} {"true" if cond else "false"} {_coq_ops(ops)})'
+    side['chain_exists'] = {'mode': mode, 'shape': 'loop over the members asking member._file_exists('
+                            + ('the re-assigned name' if carry else 'join(prefix, name)') + ')', 'line': lp.lineno}
+    return mode
+
+
+def _chain_open(tr: Tr, cls, side: dict) -> None:
+    """FileSystemChain.open_bin / open_str: `File -> self._get_data(name).open_X(...)`, `str -> self._get_file(name).open_X(...)`."""
+    for mname in ('open_bin', 'open_str'):
+        fn = normalise(tr, cls, tr.method(cls, mname))
+        ps = _params(fn)
+        paths = _paths(_body(fn))
+        if not ps or paths is None or len(paths) != 2:
+            tr.err(fn, f'FileSystemChain.{mname}: not an isinstance(name, File) dispatch with two returns')
+        A = ps[0]
+        extra = ps[1:]
+        seen = set()
+        for conds, e in paths:
+            if len(conds) != 1 or ast.unparse(conds[0][0]) != f'isinstance({A}, File)':
+                tr.err(fn, f'FileSystemChain.{mname}: unrecognised condition')
+            if not (isinstance(e, ast.Call) and isinstance(e.func, ast.Attribute) and e.func.attr == mname
+                    and [ast.unparse(a) for a in e.args] + [ast.unparse(k.value) for k in e.keywords] == extra):
+                tr.err(fn, f'FileSystemChain.{mname}: does not return <file>.{mname}({", ".join(extra)})')
+            src = ast.unparse(e.func.value)
+            want = f'self._get_data({A})' if conds[0][1] else None
+            if conds[0][1]:
+                if src not in (f'self._get_data({A})', f'{A}._data'):
+                    tr.err(fn, f'FileSystemChain.{mname}: a File of the chain is not opened through its member File')
+            elif src not in (f'self._get_file({A})', f'self[{A}]'):
+                tr.err(fn, f'FileSystemChain.{mname}: a name is not opened through self._get_file(name)')
+            seen.add(conds[0][1])
+        if seen != {True, False}:
+            tr.err(fn, f'FileSystemChain.{mname}: missing branch')
+    side['chain_open'] = 'open_bin/open_str(name) = self._get_file(name).open_*()'
+
+
 def _chain(tr: Tr, side: dict) -> list[str]:
     cls = tr.classes.get('FileSystemChain')
     if cls is None:
         tr.err(tr.tree, 'FileSystemChain not found')
+    tr.cls = cls
     out = []
+    _base_and_dunders(tr, side)
     # add_sys
-    fn = tr.method(cls, 'add_sys')
-    stmts = [s for s in fn.body if not (isinstance(s, ast.Expr) and isinstance(s.value, ast.Constant))]
-    ok = (len(stmts) == 1 and isinstance(stmts[0], ast.If) and _name(stmts[0].test) == 'priority'
+    fn = normalise(tr, cls, tr.method(cls, 'add_sys'))
+    stmts = _body(fn)
+    aps = _params(fn)
+    if len(aps) < 2:
+        tr.err(fn, 'add_sys: unrecognised signature')
+    pair = f'({aps[0]}, {aps[1]})'
+    prio = [a.arg for a in fn.args.kwonlyargs] + aps[2:]
+    ok = (len(stmts) == 1 and isinstance(stmts[0], ast.If) and _name(stmts[0].test) in prio
           and len(stmts[0].body) == 1 and len(stmts[0].orelse) == 1)
     if not ok:
         tr.err(fn, 'add_sys: unrecognised shape')
+
     def action(st):
         """self.systems.insert(<n>, (sys, prefix)) -> InsertAt n;  self.systems.append((sys, prefix)) -> Append."""
         if not (isinstance(st, ast.Expr) and isinstance(st.value, ast.Call) and not st.value.keywords
-                and st.value.args and ast.unparse(st.value.args[-1]) == '(sys, prefix)'):
+                and st.value.args and ast.unparse(st.value.args[-1]) == pair):
             tr.err(st, 'add_sys: branch does not add (sys, prefix) to self.systems')
         fd = _dotted(st.value.func)
         if fd == 'self.systems.append' and len(st.value.args) == 1:
@@ -393,79 +867,96 @@ def _chain(tr: Tr, side: dict) -> list[str]:
     out.append(f'Definition chain_plain_action : ins_action := {na}.')
     side['chain_add_sys'] = {'priority': pa_s, 'plain': na_s}
 
-    def systems_loop(fn):
-        loops = [s for s in fn.body if isinstance(s, ast.For)]
-        if len(loops) != 1:
-            tr.err(fn, f'{fn.name}: expected one loop over self.systems')
-        lp = loops[0]
-        if ast.unparse(lp.target) != '(sys, prefix)':
-            tr.err(lp, f'{fn.name}: loop target is not (sys, prefix)')
-        if _dotted(lp.iter) == 'self.systems':
-            fwd = True
-        elif isinstance(lp.iter, ast.Call) and _name(lp.iter.func) == 'reversed' and _dotted(lp.iter.args[0]) == 'self.systems':
-            fwd = False
-        else:
-            tr.err(lp, f'{fn.name}: does not iterate self.systems')
-        return lp, fwd
-
-    def join_ops(st, var, arg):
-        # var = os.path.join(prefix, arg).replace('\\', '/')
-        if not (isinstance(st, ast.Assign) and _name(st.targets[0]) == var):
-            tr.err(st, f'expected assignment to {var}')
-        base, ops = tr.expr(st.value, {'JOIN': ('JOIN', [])}) if False else _join_expr(tr, st.value, arg)
-        return ops
-
     # _get_file
-    fn = tr.method(cls, '_get_file')
-    lp, fwd = systems_loop(fn)
-    b = lp.body
-    shape = (len(b) == 3 and isinstance(b[1], ast.Try) and isinstance(b[2], ast.Return)
-             and len(b[1].body) == 1 and len(b[1].handlers) == 1 and not b[1].orelse and not b[1].finalbody
-             and _name(b[1].handlers[0].type) == 'FileNotFoundError' and len(b[1].handlers[0].body) == 1
-             and isinstance(b[1].handlers[0].body[0], ast.Continue)
-             and isinstance(b[1].body[0], ast.Assign)
-             and ast.unparse(b[1].body[0].value) == 'sys._get_file(full_name)'
-             and isinstance(b[2].value, ast.Call) and _name(b[2].value.func) == 'File'
-             and len(b[2].value.args) == 3 and ast.unparse(b[2].value.args[2]) == ast.unparse(b[1].body[0].targets[0]))
-    if not shape:
-        tr.err(lp, '_get_file: loop body is not `full_name = ...; try: f = sys._get_file(full_name) except FileNotFoundError: continue; return File(.., f)`')
-    jops = join_ops(b[0], 'full_name', 'name')
-    last = fn.body[-1]
-    if not (isinstance(last, ast.Raise) and 'FileNotFoundError' in ast.unparse(last)):
-        tr.err(fn, '_get_file: does not end by raising FileNotFoundError')
+    fn = normalise(tr, cls, tr.method(cls, '_get_file'))
+    ps = _params(fn)
+    if len(ps) != 1:
+        tr.err(fn, '_get_file: expected one parameter')
+    A = ps[0]
+    stmts = _body(fn)
+    lp, S, P, fwd = _systems_loop(tr, fn, stmts)
+    b = list(lp.body)
+    asked = path = None
+    if len(b) == 2 and isinstance(b[0], ast.Try) and isinstance(b[1], ast.Return):
+        t = b[0]
+        if (len(t.body) == 1 and len(t.handlers) == 1 and not t.orelse and not t.finalbody and _is_fnf(t.handlers[0])
+                and len(t.handlers[0].body) == 1 and isinstance(t.handlers[0].body[0], ast.Continue)
+                and isinstance(t.body[0], ast.Assign) and len(t.body[0].targets) == 1 and isinstance(t.body[0].targets[0], ast.Name)
+                and isinstance(t.body[0].value, ast.Call) and _dotted(t.body[0].value.func) == f'{S}._get_file'
+                and len(t.body[0].value.args) == 1 and not t.body[0].value.keywords
+                and isinstance(b[1].value, ast.Call) and _name(b[1].value.func) == 'File' and len(b[1].value.args) == 3
+                and _name(b[1].value.args[0]) == 'self' and _name(b[1].value.args[2]) == t.body[0].targets[0].id):
+            asked, path = t.body[0].value.args[0], b[1].value.args[1]
+    elif len(b) == 1 and isinstance(b[0], ast.Try):
+        t = b[0]
+        if (len(t.body) == 1 and len(t.handlers) == 1 and not t.orelse and not t.finalbody and _is_fnf(t.handlers[0])
+                and len(t.handlers[0].body) == 1 and isinstance(t.handlers[0].body[0], (ast.Continue, ast.Pass))
+                and isinstance(t.body[0], ast.Return) and isinstance(t.body[0].value, ast.Call) and _name(t.body[0].value.func) == 'File'
+                and len(t.body[0].value.args) == 3 and _name(t.body[0].value.args[0]) == 'self'
+                and isinstance(t.body[0].value.args[2], ast.Call) and _dotted(t.body[0].value.args[2].func) == f'{S}._get_file'
+                and len(t.body[0].value.args[2].args) == 1):
+            asked, path = t.body[0].value.args[2].args[0], t.body[0].value.args[1]
+    if asked is None:
+        tr.err(lp, '_get_file: loop body is not `try: f = member._get_file(join(prefix, name)) except FileNotFoundError: continue; '
+                   'return File(self, .., f)`')
+    j = _join_of(tr, asked, P)
+    if j is None or j[0] != A:
+        tr.err(asked, f'_get_file: the member is not asked for os.path.join(prefix, {A})...')
+    jops = j[1]
+    last = stmts[-1]
+    if not (last is not lp and isinstance(last, ast.Raise) and 'FileNotFoundError' in ast.unparse(last)) or stmts[0] is not lp or len(stmts) != 2:
+        tr.err(fn, '_get_file: is not one loop followed by raising FileNotFoundError')
     out.append(f'Definition chain_get_forward : bool := {"true" if fwd else "false"}.')
     out.append(f'Definition chain_get_join_ops : list sop := {_coq_ops(jops)}.')
     side['chain_get'] = {'forward': fwd, 'join_ops': jops, 'line': lp.lineno}
 
+    # _file_exists, open_bin, open_str
+    out.append(f'Definition chain_exists_mode : exists_mode := {_chain_exists(tr, cls, side)}.')
+    _chain_open(tr, cls, side)
+    out.append('Definition chain_open_via_get : bool := true.')
+    out.append('Definition fs_dunders_delegate : bool := true.')
+
     # walk_folder (dedup)
-    kops, dmode, dshape = _dedup(tr, tr.method(cls, 'walk_folder'))
+    kops, dmode, dshape = _dedup(tr, normalise(tr, cls, tr.method(cls, 'walk_folder')))
     out.append(f'Definition chain_dedup_ops : list sop := {_coq_ops(kops)}.')
     out.append(f'Definition chain_dedup_mode : dedup_mode := {dmode}.')
     side['chain_dedup_ops'] = kops
     side['chain_dedup'] = {'mode': dmode, 'shape': dshape}
 
     # walk_folder_repeat
-    fn = tr.method(cls, 'walk_folder_repeat')
-    lp, fwd = systems_loop(fn)
+    fn = normalise(tr, cls, tr.method(cls, 'walk_folder_repeat'))
+    ps = _params(fn)
+    if len(ps) != 1:
+        tr.err(fn, 'walk_folder_repeat: expected one parameter')
+    A = ps[0]
+    stmts = _body(fn)
+    lp, S, P, fwd = _systems_loop(tr, fn, stmts)
+    if len(stmts) != 1:
+        tr.err(fn, 'walk_folder_repeat: statements besides the loop over self.systems')
     b = list(lp.body)
-    if len(b) < 2 or not isinstance(b[-1], ast.For):
+    if len(b) != 1 or not isinstance(b[0], ast.For) or b[0].orelse:
         tr.err(lp, 'walk_folder_repeat: unrecognised loop body')
-    jops2 = join_ops(b[0], 'full_folder', 'folder')
-    inner = b[-1]
-    if not (ast.unparse(inner.iter) == 'sys.walk_folder(full_folder)' and _name(inner.target) == 'file'
+    inner = b[0]
+    F = _name(inner.target)
+    if not (F and isinstance(inner.iter, ast.Call) and _dotted(inner.iter.func) == f'{S}.walk_folder' and len(inner.iter.args) == 1
+            and not inner.iter.keywords
             and len(inner.body) == 1 and isinstance(inner.body[0], ast.Expr) and isinstance(inner.body[0].value, ast.Yield)
             and isinstance(inner.body[0].value.value, ast.Call) and _name(inner.body[0].value.value.func) == 'File'
-            and len(inner.body[0].value.value.args) == 3 and _name(inner.body[0].value.value.args[2]) == 'file'):
-        tr.err(inner, 'walk_folder_repeat: inner loop is not `for file in sys.walk_folder(full_folder): yield File(self, <rel>, file)`')
+            and len(inner.body[0].value.value.args) == 3 and _name(inner.body[0].value.value.args[0]) == 'self'
+            and _name(inner.body[0].value.value.args[2]) == F):
+        tr.err(inner, 'walk_folder_repeat: inner loop is not `for file in member.walk_folder(join(prefix, folder)): yield File(self, <rel>, file)`')
+    j = _join_of(tr, inner.iter.args[0], P)
+    if j is None or j[0] != A:
+        tr.err(inner, f'walk_folder_repeat: the member is not asked for os.path.join(prefix, {A})...')
+    jops2 = j[1]
     rel = ast.unparse(inner.body[0].value.value.args[1])
-    mid = b[1:-1]
-    if rel == "os.path.relpath(file.path, prefix).replace('\\\\', '/')" and not mid:
+    if rel == f"os.path.relpath({F}.path, {P}).replace('\\\\', '/')":
         mode = 'RelPath'
-    elif (rel == "'/'.join(file.path.replace('\\\\', '/').split('/')[depth:])" and len(mid) == 1
-          and ast.unparse(mid[0]) == "depth = len([part for part in prefix.replace('\\\\', '/').split('/') if part not in ('', '.')])"):
+    elif rel == (f"'/'.join({F}.path.replace('\\\\', '/').split('/')[len([_C0 for _C0 in {P}.replace('\\\\', '/').split('/') "
+                 f"if _C0 not in ('', '.')]):])"):
         mode = 'RelDropSegs'
     else:
-        tr.err(inner, f'walk_folder_repeat: unrecognised relative-path expression {rel[:80]}')
+        tr.err(inner, f'walk_folder_repeat: unrecognised relative-path expression {rel[:120]}')
     out.append(f'Definition chain_walk_forward : bool := {"true" if fwd else "false"}.')
     out.append(f'Definition chain_walk_join_ops : list sop := {_coq_ops(jops2)}.')
     out.append(f'Definition chain_relmode : relmode := {mode}.')
@@ -484,10 +975,12 @@ def _dedup(tr: Tr, fn: ast.FunctionDef):
                      d[K] = file  (later members overwrite the File of a name)         -> DedupOverwrite
     where K is a normalisation of file.path.  Anything else fails closed."""
     stmts = [s for s in fn.body if not (isinstance(s, ast.Expr) and isinstance(s.value, ast.Constant))]
-    if not (len(stmts) in (2, 3) and isinstance(stmts[0], (ast.Assign, ast.AnnAssign)) and isinstance(stmts[1], ast.For)
-            and ast.unparse(stmts[1].iter) == 'self.walk_folder_repeat(folder)' and _name(stmts[1].target) == 'file'
-            and not stmts[1].orelse):
+    ps = _params(fn)
+    if not (len(ps) == 1 and len(stmts) in (2, 3) and isinstance(stmts[0], (ast.Assign, ast.AnnAssign)) and isinstance(stmts[1], ast.For)
+            and ast.unparse(stmts[1].iter) in (f'self.walk_folder_repeat({ps[0]})', f'self.walk_folder_repeat(folder={ps[0]})')
+            and isinstance(stmts[1].target, ast.Name) and not stmts[1].orelse):
         tr.err(fn, 'FileSystemChain.walk_folder: unrecognised shape')
+    FV = stmts[1].target.id
     coll = _name(stmts[0].target if isinstance(stmts[0], ast.AnnAssign) else stmts[0].targets[0])
     init = ast.unparse(stmts[0].value) if stmts[0].value is not None else ''
     if coll is None or init not in ('set()', '{}', 'dict()'):
@@ -507,7 +1000,7 @@ def _dedup(tr: Tr, fn: ast.FunctionDef):
         return k
 
     def is_yield_file(st):
-        return isinstance(st, ast.Expr) and isinstance(st.value, ast.Yield) and _name(st.value.value) == 'file'
+        return isinstance(st, ast.Expr) and isinstance(st.value, ast.Yield) and _name(st.value.value) == FV
 
     def is_call(st, meth, nargs):
         return (isinstance(st, ast.Expr) and isinstance(st.value, ast.Call) and isinstance(st.value.func, ast.Attribute)
@@ -520,7 +1013,7 @@ def _dedup(tr: Tr, fn: ast.FunctionDef):
 
     def is_store(st):
         return (isinstance(st, ast.Assign) and len(st.targets) == 1 and isinstance(st.targets[0], ast.Subscript)
-                and _name(st.targets[0].value) == coll and _name(st.value) == 'file')
+                and _name(st.targets[0].value) == coll and _name(st.value) == FV)
 
     mode = shape = None
     if is_set:
@@ -539,7 +1032,7 @@ def _dedup(tr: Tr, fn: ast.FunctionDef):
         tail = ast.unparse(stmts[2]) if len(stmts) == 3 else ''
         if tail not in (f'return iter({coll}.values())', f'return {coll}.values()', f'yield from {coll}.values()'):
             tr.err(fn, 'walk_folder: a dict is filled but its values are not returned')
-        if len(body) == 1 and is_call(body[0], 'setdefault', 2) and _name(body[0].value.args[1]) == 'file':
+        if len(body) == 1 and is_call(body[0], 'setdefault', 2) and _name(body[0].value.args[1]) == FV:
             key_of(body[0].value.args[0])
             mode, shape = 'DedupSkip', 'dict.setdefault(key, file)'
         elif (len(body) == 1 and isinstance(body[0], ast.If) and not body[0].orelse and membership(body[0].test, ast.NotIn)
@@ -552,8 +1045,8 @@ def _dedup(tr: Tr, fn: ast.FunctionDef):
     if mode is None:
         tr.err(stmts[1], 'walk_folder: loop body is not a recognised de-duplication')
     for kb, _ in keys:
-        if kb != 'file.path':
-            tr.err(stmts[1], f'walk_folder: de-duplication key derived from {kb}, not from file.path')
+        if kb != f'{FV}.path':
+            tr.err(stmts[1], f'walk_folder: de-duplication key derived from {kb}, not from {FV}.path')
     for _, ko in keys[1:]:
         if ko != keys[0][1]:
             tr.err(stmts[1], 'walk_folder: the membership test and the store use different keys')
@@ -580,6 +1073,119 @@ def _join_expr(tr: Tr, e, arg: str):
         else:
             tr.err(c, 'unrecognised operation after os.path.join')
     return 'JOIN', ops
+
+
+# ------------------------------------------------------------------------------------------------ what open_* reads
+def _strip_wrappers(e):
+    """io.TextIOWrapper(X, ...), io.BytesIO(X), io.StringIO(X, ...), cast(T, X) -> X."""
+    while isinstance(e, ast.Call):
+        fd = _dotted(e.func)
+        if fd in ('io.TextIOWrapper', 'io.BytesIO', 'io.StringIO', 'TextIOWrapper', 'BytesIO', 'StringIO') and e.args:
+            e = e.args[0]
+        elif fd in ('cast', 'typing.cast') and len(e.args) == 2:
+            e = e.args[1]
+        else:
+            break
+    return e
+
+
+def _cexpr(tr: Tr, cls, e, fv: str, depth: int = 0) -> str:
+    """Content expression over the FileInfo variable `fv` -> Coq cexpr.  Fail-closed."""
+    if depth > 4:
+        tr.err(e, 'content helper recursion')
+    if isinstance(e, ast.Call) and isinstance(e.func, ast.Attribute) and e.func.attr == 'read' and _name(e.func.value) == fv \
+            and not e.args and not e.keywords:
+        return 'CRead'
+    if isinstance(e, ast.Attribute) and e.attr == 'start_data' and _name(e.value) == fv:
+        return 'CPreload'
+    if isinstance(e, ast.IfExp):
+        return _ctest(tr, e.test, fv, _cexpr(tr, cls, e.body, fv, depth), _cexpr(tr, cls, e.orelse, fv, depth))
+    if isinstance(e, ast.Call) and len(e.args) == 1 and not e.keywords and _name(e.args[0]) == fv:
+        # a helper of the same class / module taking the FileInfo: if-return chains over the same little language
+        fn = _Inline(tr, cls)._resolve(e.func)
+        if fn is not None:
+            ps = [a.arg for a in fn.args.args]
+            deco = {_dotted(d) for d in fn.decorator_list}
+            if ps and ps[0] in ('self', 'cls') and 'staticmethod' not in deco:
+                ps = ps[1:]
+            if len(ps) == 1:
+                paths = _paths(_body(normalise(tr, cls, fn)))
+                if paths:
+                    return _cpaths(tr, cls, paths, ps[0], depth + 1)
+    tr.err(e, f'unrecognised content expression {ast.unparse(e)[:80]} (expected {fv}.read())')
+
+
+def _cpaths(tr: Tr, cls, paths, fv: str, depth: int) -> str:
+    """[(conditions, expr)] produced by _paths (a decision tree in prefix order) -> nested cexpr."""
+    def build(items, level):
+        if len(items) == 1 and len(items[0][0]) == level:
+            return _cexpr(tr, cls, items[0][1], fv, depth)
+        test = items[0][0][level][0]
+        yes = [it for it in items if it[0][level][0] is test and it[0][level][1]]
+        no = [it for it in items if it[0][level][0] is test and not it[0][level][1]]
+        if len(yes) + len(no) != len(items) or not yes or not no:
+            tr.err(test, 'unrecognised decision structure in content helper')
+        return _ctest(tr, test, fv, build(yes, level + 1), build(no, level + 1))
+    return build(list(paths), 0)
+
+
+def _ctest(tr: Tr, t, fv: str, a: str, b: str) -> str:
+    """`a if <t> else b` for the two tests on where the data lives."""
+    u = ast.unparse(t)
+    if u == f'{fv}.arch_index is None':
+        return f'(CIfDir {a} {b})'
+    if u == f'{fv}.arch_index is not None':
+        return f'(CIfDir {b} {a})'
+    if u in (f'not {fv}.arch_len', f'{fv}.arch_len == 0', f'{fv}.arch_len <= 0', f'0 == {fv}.arch_len'):
+        return f'(CIfNoTail {a} {b})'
+    if u in (f'{fv}.arch_len', f'{fv}.arch_len != 0', f'{fv}.arch_len > 0', f'{fv}.arch_len >= 1'):
+        return f'(CIfNoTail {b} {a})'
+    tr.err(t, f'unrecognised test {u[:60]} in a content expression')
+
+
+def _vpk_content(tr: Tr, cls, dict_attr: str, side: dict) -> list[str]:
+    """VPKFileSystem.open_bin / open_str: every return wraps one content expression over the FileInfo, which comes from
+    self._get_data(name) (a File of this system) or from the dictionary."""
+    out = []
+    res = {}
+    for mname in ('open_bin', 'open_str'):
+        fn0 = tr.method(cls, mname)
+        if fn0.decorator_list:
+            tr.err(fn0, f'VPKFileSystem.{mname} is decorated')
+        fn = normalise(tr, cls, fn0)
+        ps = _params(fn)
+        rets = [n for n in ast.walk(fn) if isinstance(n, ast.Return) and n.value is not None]
+        if not rets:
+            tr.err(fn, f'VPKFileSystem.{mname}: no return')
+        got = set()
+        for r in rets:
+            e = _strip_wrappers(r.value)
+            if mname == 'open_str' and isinstance(e, ast.Call) and _dotted(e.func) == 'self.open_bin' and e.args \
+                    and _name(e.args[0]) == ps[0]:
+                got.add(res['open_bin'])
+                continue
+            # the FileInfo variable: every Name the expression reads that is assigned in the function
+            names = {n.id for n in ast.walk(e) if isinstance(n, ast.Name) and n.id not in ('self', 'cls', cls.name)}
+            if len(names) != 1:
+                tr.err(r, f'VPKFileSystem.{mname}: content does not depend on exactly one variable')
+            fv = names.pop()
+            for a in ast.walk(fn):
+                if isinstance(a, ast.Assign) and any(_name(t) == fv for t in a.targets):
+                    src = a.value
+                    ok = (isinstance(src, ast.Call) and _dotted(src.func) in ('self._get_data', 'cls._get_data') and len(src.args) == 1
+                          and _name(src.args[0]) == ps[0]) \
+                        or (isinstance(src, ast.Subscript) and _dotted(src.value) == f'self.{dict_attr}') \
+                        or (isinstance(src, ast.Attribute) and src.attr == '_data' and _name(src.value) == ps[0])
+                    if not ok:
+                        tr.err(a, f'VPKFileSystem.{mname}: {fv} is neither the File\'s data nor a dictionary entry')
+            got.add(_cexpr(tr, cls, e, fv))
+        if len(got) != 1:
+            tr.err(fn, f'VPKFileSystem.{mname}: different returns read different things: {sorted(got)}')
+        res[mname] = got.pop()
+        out.append(f'Definition vpk_{mname}_content : cexpr := {res[mname]}.')
+    side['vpk_content'] = res
+    return out
+
 
 
 def _raw(tr: Tr, side: dict) -> list[str]:
@@ -657,12 +1263,15 @@ def translate() -> tuple[str, dict]:
     tr = Tr(tree, 'filesys.py')
     side: dict = {'backends': {}}
     lines = ['(* generated by translate/c19_walk.py from src/srctools/filesys.py - do not edit *)',
-             'From Coq Require Import List NArith.', 'From SV Require Import SM.FsChain.', 'Import ListNotations.', '']
+             'From Coq Require Import List NArith.', 'From SV Require Import SM.FsChain SM.FsChainForms.', 'Import ListNotations.', '']
     for cname, dattr in DICTS.items():
         cls = tr.classes.get(cname)
         if cls is None:
             tr.err(tree, f'class {cname} not found')
         tr.cls = cls
+        for m in _methods(cls).values():
+            if m.name in LOOKUP_METHODS and m.decorator_list:
+                tr.err(m, f'{cname}.{m.name} is decorated')
         store, store_base = _store_ops(tr, cls, dattr)
         get = _key_uses(tr, tr.method(cls, '_get_file'), dattr, 'name')
         ex = _key_uses(tr, tr.method(cls, '_file_exists'), dattr, 'name')
@@ -681,7 +1290,12 @@ def translate() -> tuple[str, dict]:
                                    'walk_source': wsrc, 'walk_subject': subj, 'walk_subject_ops': sops, 'walk_line': line,
                                    'digest': ast_digest(cls)}
     lines.append('')
+    tr.cls = tr.classes['VPKFileSystem']
+    lines += _vpk_content(tr, tr.cls, DICTS['VPKFileSystem'], side)
     lines += _raw(tr, side)
+    for m in _methods(tr.classes.get('FileSystemChain') or tr.err(tree, 'FileSystemChain not found')).values():
+        if m.name in LOOKUP_METHODS and m.decorator_list:
+            tr.err(m, f'FileSystemChain.{m.name} is decorated')
     lines += _chain(tr, side)
     lines.append('')
     return '\n'.join(lines), side
